@@ -996,45 +996,9 @@ func c07strict(p *Program, r *Report, fns map[string]*ssa.Function) {
 		okCase, howCase := mixedCaseRejects(p, fn)
 		r.Add("C07.strict", FnName(fn), "mixed-case input rejects", fn.Pos(), okCase, howCase)
 	}
-	// ConvertBits: without padding, leftover bits that are non-zero or too many reject
-	if cb := fns["bech32.ConvertBits"]; cb != nil {
-		var padParam *ssa.Parameter
-		for _, pa := range cb.Params {
-			if b, ok := pa.Type().Underlying().(*types.Basic); ok && b.Kind() == types.Bool {
-				padParam = pa
-			}
-		}
-		nonZeroRej, tooManyRej := false, false
-		for _, b := range cb.Blocks {
-			iff, ok := lastInstr(b).(*ssa.If)
-			if !ok {
-				continue
-			}
-			bo, ok := iff.Cond.(*ssa.BinOp)
-			if !ok {
-				continue
-			}
-			if _, isPhi := bo.X.(*ssa.Phi); !isPhi {
-				continue
-			}
-			if isLoopHeader(b) {
-				continue
-			}
-			k, ok := constInt(bo.Y)
-			if !ok {
-				continue
-			}
-			if bo.Op == token.NEQ && k == 0 && !canReachAccept(cb, b.Succs[0]) {
-				nonZeroRej = true
-			}
-			if (bo.Op == token.GTR && k == 4 || bo.Op == token.GEQ && k == 5) && !canReachAccept(cb, b.Succs[0]) {
-				tooManyRej = true
-			}
-		}
-		_ = padParam
-		r.Add("C07.strict", FnName(cb), "non-zero leftover bits reject when not padding", cb.Pos(), nonZeroRej, "leftover value ≠ 0 leads only to the error return")
-		r.Add("C07.strict", FnName(cb), "more than four leftover bits reject when not padding", cb.Pos(), tooManyRej, "leftover count > 4 leads only to the error return")
-	}
+	// ConvertBits: the two shape tests that stood here ("leftover ≠ 0 rejects", "leftover count > 4 rejects") recognised only
+	// the spellings `!= 0` and `> 4` / `>= 5` and flagged `nextByte > 0`; they are subsumed by the finite decision of the
+	// whole tail (c07convertTail), which evaluates any comparison over the classes of the domain
 	c07rangesExact(p, r, fns["bech32.Decode"], fns["bech32.ConvertBits"])
 	if cb := fns["bech32.ConvertBits"]; cb != nil {
 		c07convertTail(p, r, cb)
